@@ -267,6 +267,11 @@ func (r *SimReader) ReadAt(p []byte, off int64) (int, error) {
 		}
 		return n, r.endErr()
 	}
+	if r.DataEOF && off+int64(n) == int64(lim) && lim == len(r.Data) && r.Kind == EndEOF {
+		// io.ReaderAt: "If the n = len(p) bytes returned by ReadAt are at the end of the input
+		// source, ReadAt may return either err == EOF or err == nil."
+		return n, io.EOF
+	}
 	return n, nil
 }
 
